@@ -83,6 +83,27 @@ def small_program(rng):
     return "\n".join(fixed) + "\n", "\n".join(free) + "\n"
 
 
+def parse_preprocessed(root):
+    """Project(...) + correlate() with the default preprocessing of .F/.FOR files left on (pcpp is on PATH)"""
+    import os, pathlib
+    import ford.fortran_project
+    from ford.settings import ProjectSettings
+    from harness.impl import fordrun as F
+    F.reset_globals()
+    st = ProjectSettings(src_dir=[pathlib.Path(root) / "src"], preprocess=True, dbg=True,
+                         output_dir=pathlib.Path(root) / "doc")
+    cwd = os.getcwd()
+    os.chdir(root)
+    try:
+        with F.quiet() as buf:
+            p = ford.fortran_project.Project(st)
+            p.correlate()
+    finally:
+        os.chdir(cwd)
+    p._verif_log = buf.getvalue()
+    return p
+
+
 def project_level(chk, rng, quick):
     """E. through Project: a fixed-form file under every default fixed-form extension documents the same
     entities (names, arguments, variables, documentation, calls) as its free-form equivalent"""
@@ -90,10 +111,13 @@ def project_level(chk, rng, quick):
     from harness.impl import tree as I
     from harness.gen import ftree as T
 
-    def snapshot(fname, text):
+    def snapshot(fname, text, preprocess=False):
         with F.Work({f"src/{fname}": text}) as w:
             try:
-                p = F.parse_project(w.root, correlate=True)
+                if preprocess:
+                    p = parse_preprocessed(w.root)
+                else:
+                    p = F.parse_project(w.root, correlate=True)
             except BaseException as e:  # noqa
                 if isinstance(e, (KeyboardInterrupt, SystemExit)):
                     raise
@@ -107,9 +131,17 @@ def project_level(chk, rng, quick):
             return ("ok", T.tree_term(node), calls)
     for k in range(6 if quick else 60):
         fixed, free = small_program(rng)
+        # sequence numbers in columns 73-80 on some statement lines: no part of the statements
+        seq = rng.random() < 0.5
+        if seq:
+            fixed = "\n".join(l.ljust(72) + f"SEQ{n:05d}" if (l[:1] == " " and len(l) <= 72 and l.strip()
+                                                              and "!" not in l) else l
+                              for n, l in enumerate(fixed.split("\n"))) + ("" if fixed.endswith("\n") else "")
         ref = snapshot("unit.f90", free)
         for ext in FIXED_EXTS:
-            got = snapshot(f"unit.{ext}", fixed)
+            # upper-case extensions are preprocessed by default: with and without the preprocessor
+            pre = ext.isupper() and rng.random() < 0.5
+            got = snapshot(f"unit.{ext}", fixed, preprocess=pre)
             chk.count(("project-level", ext, fixed), sample={"ext": ext, "fixed": fixed} if k == 0 and ext == "F" else None)
             if ref[0] != "ok":
                 chk.violation("failing-input", {"what": "FORD does not document the free-form reference program",
@@ -117,7 +149,8 @@ def project_level(chk, rng, quick):
                 break
             if got != ref:
                 chk.violation("failing-input", {"what": f"a fixed-form file with extension .{ext} is not documented "
-                                                "like its free-form equivalent", "fixed": fixed, "free": free,
+                                                "like its free-form equivalent", "preprocessed": pre,
+                                                "sequence_numbers": seq, "fixed": fixed, "free": free,
                                                 "fixed_result": got[:2], "free_result": ref[:2]}, True)
 
 
